@@ -165,6 +165,12 @@ def run(ctx):
         stats['reach:scripts'] = judged
         stats['reach:awf=1'] = good
         stats['reach:awf=0'] = flags - good
+        # the invariant of Props/C07ReachV (stores with in-place updates of the input value) and the side condition of its optimize step,
+        # decided on the same stores: recorded (a 0 is outside the hypotheses of C07_reachable_no_panic_mut, not a failure)
+        ex = getattr(optgen.access_wf_stats, 'extra', {})
+        stats['reach:setval-scripts'] = ex.get('setval', 0)
+        stats['reach:wfq=0'] = ex.get('wfq0', 0)
+        stats['reach:noStale=0'] = ex.get('ns0', 0)
     ctx.rule = ('RUN cases: boundary literals (i32 limits, huge floats, empty and multi-byte text, shift counts 31/32/33, negative and fractional numbers) under binary operators in both orders and in indexing / slicing / casting / range shapes, '
                 'generated core-language programs, deeply nested groups/lists/expressions, pair chains 2 000 and 40 000 levels deep consumed by casts / equality / type-of; OP matrix (every instruction x every type pair); all on both stores with callbacks absent / declining / accepting; oracle: no PANIC, no ABORT, no HANG — every step returns Ok or Err; '
                 'plus the regenerated panic-site inventory against its reviewed baseline; '
